@@ -518,7 +518,8 @@ pub fn run(tier: &str, seed: u64, outdir: &str) {
             ])
         }));
         let strings = ["00501", "+5", "-0", " 7", "7 ", "Ab C", "1e3", "", "true", "0x10", "Zoë", "2.0"];
-        let numbers = [json!(0), json!(1), json!(2147483648u64), json!(18446744073709551615u64)];
+        // (among them integers that a 64-bit float cannot hold exactly)
+        let numbers = [json!(0), json!(1), json!(2147483648u64), json!(4294967296u64), json!(9007199254740993u64), json!(1700000000123456789u64), json!(18446744073709551614u64), json!(18446744073709551615u64)];
         if let Ok(Some(list)) = flow_docs {
             for (ty, f, doc0) in list.iter() {
                 // start from the form the library itself writes (a fixpoint of read-then-write), so that every
